@@ -2,7 +2,7 @@
    Statements only; each closed by [exact] and followed by Print Assumptions.
    Models: Codec/Varint.v, CompoundKey.v (boltz/encode.go), FieldCodec.v, Containers.v
    (boltz/typed_bucket.go over a bbolt bucket, field-checker restricted setters). *)
-From Coq Require Import List NArith ZArith Bool Sorted.
+From Coq Require Import List NArith ZArith Bool Sorted Permutation.
 From Storage Require Import Base.Bytes Codec.CodecBase Codec.Varint Codec.VarintProofs
   Codec.CompoundKey Codec.CompoundKeyProofs Codec.FieldCodec Codec.FieldCodecProofs
   Codec.StrOrderProofs Codec.Containers Codec.ContainersProofs.
@@ -150,6 +150,15 @@ Theorem container_write_succeeds : forall (c : checker) (name : str) (v : value)
   end.
 Proof. exact ContainersProofs.container_write_succeeds. Qed.
 Print Assumptions container_write_succeeds.
+
+(* PutMap ranges over the Go map in an unspecified order: for distinct keys every order of the
+   entries stores the same bucket, or fails alike - so representing the Go map by its key-sorted
+   association list loses nothing *)
+Theorem put_map_order_irrelevant : forall (an : bool) (m m' : list (str * value)),
+  NoDup (map fst m) -> Permutation m m' ->
+  forall n, map_node an m = Ok n <-> map_node an m' = Ok n.
+Proof. exact map_node_order_irrelevant. Qed.
+Print Assumptions put_map_order_irrelevant.
 
 (* ---- field-checker restricted writes ------------------------------------------------------------ *)
 
